@@ -87,6 +87,8 @@ func oracle(c Case, o *h.Obs) *h.Fail {
 			return h.Failf("C01|panic-depends-on-process-history|"+normMsg(out.Msg)+"|"+siteOf(out.Msg), "a Go panic escaped while running this source, but only after other sources had run in the same process (it does not panic in a fresh process): shared mutable state\nsource:\n%s\npanic: %s\nsources run before it in that process (oldest first):\n%s", src, out.Msg, hist)
 		}
 		return h.Failf("C01|panic|"+normMsg(out.Msg)+"|"+siteOf(out.Msg), "a Go panic escaped from parsing/running this source on the calling goroutine (non-debug mode):\n%s\npanic: %s", src, out.Msg)
+	case "corrupted":
+		return h.Failf("C01|process-state-corrupted|"+normMsg(strings.TrimPrefix(strings.TrimPrefix(out.Msg, "after this source ran, a harmless program panics in the same process: "), "after this source ran, a harmless program fails in the same process: ")), "running this source left the host process in a state in which a harmless program no longer runs (shared mutable state inside anko):\n%s\n%s\nharmless program:\n%s", src, out.Msg, canarySrc)
 	case "crash":
 		return h.Failf("C01|crash|"+normMsg(out.Msg)+"|"+siteOf(out.Msg), "the host process died while running this source (panic on a goroutine started by the script, or fatal error):\n%s\n%s", src, out.Msg)
 	case "died", "infra":
